@@ -539,6 +539,22 @@ func (g *genCtx) macro(name string) []Item {
 				}
 			}
 		}
+	case "indicator-after-control":
+		// an unpaired regional indicator (or a dangling joiner), a control function, then another
+		// indicator / an emoji somewhere else: each is a character of its own
+		goTo(r.intn(g.h), r.intn(g.w))
+		add("textwide", pick(r, []string{"\U0001F1E9", "a\U0001F1EA", "\U0001F468\u200d", "x\u200d"}))
+		switch r.intn(4) {
+		case 0:
+			add("crlf", "\r\n")
+		case 1:
+			goTo(r.intn(g.h), r.intn(g.w))
+		case 2:
+			out = append(out, g.item("sgr"))
+		default:
+			add("c0", "\r")
+		}
+		add("textwide", pick(r, []string{"\U0001F1EA", "\U0001F1FA\U0001F1F8", "\U0001F469", "b"})+string(g.text(r.intn(3), false, false)))
 	case "alt-text-edge":
 		// text crossing the right edge on the alternate buffer while the main cursor sits elsewhere
 		goTo(r.intn(g.h), pick(r, []int{0, 1, r.intn(g.w)}))
@@ -657,7 +673,7 @@ func (g *genCtx) macro(name string) []Item {
 }
 
 var macroNames = []string{"save-resize-restore", "outside-region", "alt-roundtrip", "wide-edges", "autowrap-corners", "wide-splice",
-	"resize-wide-rows", "mark-after-motion", "alt-text-edge", "erase-with-region", "erase-after-scroll", "save-alt-restore", "resize-twice-then-edit"}
+	"resize-wide-rows", "mark-after-motion", "alt-text-edge", "erase-with-region", "erase-after-scroll", "save-alt-restore", "resize-twice-then-edit", "indicator-after-control"}
 
 func (g *genCtx) sizePick() (int, int) {
 	r := g.r
@@ -735,7 +751,7 @@ var profiles = map[string]*profile{
 		minLen: 4, maxLen: 60, grid: 30, chunks: []int{0, 1, 2, 3}, sizes: func(g *genCtx) (int, int) { return g.sizePick() }},
 	"C02": {name: "C02", gmode: 15, macros: 8, weights: withWeights(map[string]int{"resize": 5, "textwide": 20, "goto": 20, "erase": 14, "sgr": 10, "badutf8": 3}),
 		minLen: 6, maxLen: 50, grid: 25, chunks: []int{0, 1, 3}},
-	"C03": {name: "C03", gmode: 20, macros: 8, macroSet: []string{"wide-edges", "autowrap-corners", "outside-region", "wide-splice", "mark-after-motion", "alt-text-edge"}, weights: map[string]int{"text": 30, "textwide": 20, "textlong": 15, "goto": 14, "wrap": 8, "cursor": 6, "sgr": 5, "crlf": 4, "margins": 2, "badutf8": 3, "c0": 3, "altscreen": 1},
+	"C03": {name: "C03", gmode: 20, macros: 8, macroSet: []string{"wide-edges", "autowrap-corners", "outside-region", "wide-splice", "mark-after-motion", "alt-text-edge", "indicator-after-control"}, weights: map[string]int{"text": 30, "textwide": 20, "textlong": 15, "goto": 14, "wrap": 8, "cursor": 6, "sgr": 5, "crlf": 4, "margins": 2, "badutf8": 3, "c0": 3, "altscreen": 1},
 		minLen: 4, maxLen: 40, grid: 30, chunks: []int{0, 1, 3}},
 	"C04": {name: "C04", gmode: 8, macros: 8, macroSet: []string{"outside-region", "autowrap-corners", "save-resize-restore", "save-alt-restore"}, weights: map[string]int{"cursor": 40, "c0": 15, "index": 12, "goto": 6, "margins": 8, "text": 10, "textwide": 3, "wrap": 3, "lf": 5, "crlf": 3, "manyparams": 2, "altscreen": 2},
 		minLen: 4, maxLen: 40, grid: 30, chunks: []int{0, 1}},
@@ -753,7 +769,7 @@ var profiles = map[string]*profile{
 		minLen: 4, maxLen: 40, grid: 20, chunks: []int{0, 1, 3}},
 	"C17": {name: "C17", macros: 12, macroSet: []string{"alt-roundtrip"}, weights: map[string]int{"mode": 30, "altscreen": 15, "text": 15, "textwide": 4, "goto": 8, "kbd": 8, "margins": 5, "wrap": 6, "sgr": 4, "erase": 4, "scroll": 3, "lf": 4, "resize": 4},
 		minLen: 5, maxLen: 40, grid: 20, chunks: []int{0, 1}},
-	"C16g": {name: "C16g", gmode: 100, macros: 20, macroSet: []string{"mark-after-motion", "wide-edges", "autowrap-corners"}, weights: map[string]int{"text": 30, "textwide": 20, "textzero": 14, "textlong": 10, "goto": 10, "cursor": 6, "sgr": 5, "crlf": 4, "wrap": 4},
+	"C16g": {name: "C16g", gmode: 100, macros: 20, macroSet: []string{"mark-after-motion", "wide-edges", "autowrap-corners", "indicator-after-control"}, weights: map[string]int{"text": 30, "textwide": 20, "textzero": 14, "textlong": 10, "goto": 10, "cursor": 6, "sgr": 5, "crlf": 4, "wrap": 4},
 		minLen: 4, maxLen: 30, grid: 0, chunks: []int{1, 3, 3}},
 	"C18": {name: "C18", gmode: 10, macros: 12, macroSet: []string{"save-resize-restore", "wide-edges", "resize-wide-rows"}, weights: withWeights(map[string]int{"resize": 20, "textwide": 15, "textlong": 12, "margins": 8, "cursor": 12, "altscreen": 3}),
 		minLen: 5, maxLen: 40, grid: 30, chunks: []int{0, 1}, sizes: func(g *genCtx) (int, int) { return g.sizePick() }},
